@@ -11,7 +11,7 @@ def run(tier, rep):
     for i, s in enumerate(srcs):
         core = s["name"].startswith(("async.H", "raw.fan", "raw.ratio", "raw.abc", "gen.3n"))
         dyn = core or (i + sd) % (4 if tier == "quick" else 1) == 0
-        if dyn and tier == "quick":
+        if dyn:
             # static replay of all variants + dynamic probe runs of two rotated modes (always one of GENERATIONAL / TOPOLOGICAL)
             tasks.append(dict(src=s, dynamic=False, seed=sd))
             tasks.append(dict(src=s, dynamic=True, modes=(("GENERATIONAL", "TOPOLOGICAL")[(i + sd) % 2], ("MCS", "TOPOLOGICAL", "GENERATIONAL")[(i + sd) % 3]), prunes=(bool((i + sd) % 2),), seed=sd))
